@@ -102,9 +102,14 @@ def long_cigars(draw):
     prev = None
     for i in range(n):
         choices = [sam.M, sam.M, sam.EQ, sam.X, sam.I, sam.D, sam.N]
-        if prev in (sam.N, None) or i == n - 1:
+        if prev is None or i == n - 1:
             choices = [sam.M, sam.EQ, sam.X, sam.I, sam.D]
-        op = draw(st.sampled_from([o for o in choices if o != prev]))
+        elif prev == sam.N:
+            # a run of N operations is valid SAM (emitted by CIGAR post-processing / lift-over tools)
+            choices = [sam.M, sam.M, sam.EQ, sam.X, sam.I, sam.D, sam.N]
+        # equal neighbours are kept in one case out of four (the SAM specification only recommends merging them)
+        keep_equal = draw(st.integers(0, 3)) == 0
+        op = draw(st.sampled_from([o for o in choices if keep_equal or o != prev]))
         ln = draw(st.integers(1, 5000 if op == sam.N else 300))
         core.append([op, ln])
         prev = op
@@ -124,14 +129,7 @@ def long_cigars(draw):
         cig.append([sam.S, draw(st.integers(1, 80))])
         if draw(st.booleans()):
             cig.append([sam.H, draw(st.integers(1, 50))])
-    # merge equal neighbours
-    out = []
-    for o, l in cig:
-        if out and out[-1][0] == o:
-            out[-1][1] += l
-        else:
-            out.append([o, l])
-    return {"start0": draw(st.integers(0, 10 ** 6)), "cigar": out}
+    return {"start0": draw(st.integers(0, 10 ** 6)), "cigar": cig}
 
 
 def eval_long(case, ctx):
